@@ -37,6 +37,10 @@ def _reciprocal(val):
     return 1 / val
 
 
+_UFUNC_OPERATORS = {np.add: operator.add, np.subtract: operator.sub,
+                    np.multiply: operator.mul, np.divide: operator.truediv}
+
+
 class Prior(HoloPyObject):
     """
     Base class for Bayesian priors in holopy.
@@ -108,6 +112,13 @@ class Prior(HoloPyObject):
 
     def __array_ufunc__(self, ufunc, method, *args, name=None, **kwargs):
         if method == "__call__" and len(kwargs) == 0:
+            if (ufunc in _UFUNC_OPERATORS and name is None and len(args) == 2
+                    and any(isinstance(arg, np.generic) for arg in args)):
+                # arithmetic with a numpy scalar on the left (np.float64(2) * p)
+                # arrives here; it means the same as with a python number
+                args = [arg.item() if isinstance(arg, np.generic) else arg
+                        for arg in args]
+                return _UFUNC_OPERATORS[ufunc](*args)
             return TransformedPrior(ufunc, args, name)
         else:
             raise TypeError('Could not apply numpy ufunc to Prior object. '
